@@ -42,7 +42,11 @@ template <typename V> static inline int get0(const V& mv, long* out){
   const auto& v = nm::unwrap(mv); *out = (long)v(0); return 1; }
 #define UNK(op, T) KERNEL int K(k_##op##_##T)(P_##T x, long* out){ nmtools_array<T,1> a{(T)x}; return get0(view::op(a), out); }
 #define BIK(op, T, U) KERNEL int K(k_##op##_##T##_##U)(P_##T x, P_##U y, long* out){ nmtools_array<T,1> a{(T)x}; return get0(view::op(a,(U)y), out); }
+#define BIK_AA(op, T, U) KERNEL int K(k_##op##_aa_##T##_##U)(P_##T x, P_##U y, long* out){ nmtools_array<T,1> a{(T)x}; nmtools_array<U,1> b{(U)y}; return get0(view::op(a,b), out); }
 #define YU(op) C07_INT_TYPES(UNK, op)
 #define YB(op) C07_INT_PAIRS(BIK, op)
 C07_INT_UNOPS(YU)
 C07_INT_BINOPS(YB)
+// maximum / minimum with both operands arrays (the functor applied to plain elements)
+C07_INT_PAIRS(BIK_AA, maximum)
+C07_INT_PAIRS(BIK_AA, minimum)
